@@ -764,8 +764,8 @@ def run(tier):
                         n, lim, '; '.join(group_sites.get(grp, []))),
                     grp, 'OBLIGATION(group ceiling)', instance='%s: %d undischarged site(s), all reviewed' % (grp, n))
     res.coverage['undischarged_per_group'] = per_group
-    if len(obl) < 350:
-        raise CheckError('floor: obligations %d < 350' % len(obl))
+    if len(obl) < 300:
+        raise CheckError('floor: obligations %d < 300' % len(obl))
     res.coverage.update({'obligations': len(obl), 'discharged': n_ok, 'classified_sites': {k: len(v) for k, v in classes.items()}, 'classified': classes, 'delegated_sites': deleg,
                          'entries': len(ents), 'passes': log, 'class_hierarchy_joins': an.cha_log,
                          'loops_analysed': sum(len(v) for v in an.loops.values()),
